@@ -236,6 +236,7 @@ macro_rules! catalogue {
         Op::Contains => src.contains(th).map(|b: bool| Val::B(b)).box_it(),
         Op::All => src.all(move |v: Val| pred(pk, &th, &v)).map(|b: bool| Val::B(b)).box_it(),
         Op::Collect => src.collect::<Vec<Val>>().map(|v: Vec<Val>| Val::L(v)).box_it(),
+        Op::CollectInto => src.collect_into::<Vec<Val>>(vec![th]).map(|v: Vec<Val>| Val::L(v)).box_it(),
         Op::OnErrorMap => src.on_error_map(move |e: Val| plus(&e, &th)).box_it(),
         Op::Finalize => src
           .$finalize(move || {
